@@ -94,8 +94,9 @@ def _step(axis, pq):
 
 for _pq in (1, 2, 3, 4):
     contract("C25", f"Revolute.l/step[prev_quadrant={_pq},axis=2]", timeout=120, samples=4, max_paths=40)(_step(2, _pq))
-    contract("C25", f"Revolute.l/step[prev_quadrant={_pq},axis=0]", tiers=("thorough",), timeout=120, samples=4, max_paths=40)(_step(0, _pq))
-    contract("C25", f"Revolute.l/step[prev_quadrant={_pq},axis=1]", tiers=("thorough",), timeout=120, samples=4, max_paths=40)(_step(1, _pq))
+    # every axis at the quick tier too: the orientation of the rotation plane (right-handed about e_axis) is per axis
+    contract("C25", f"Revolute.l/step[prev_quadrant={_pq},axis=0]", timeout=120, samples=4, max_paths=40)(_step(0, _pq))
+    contract("C25", f"Revolute.l/step[prev_quadrant={_pq},axis=1]", timeout=120, samples=4, max_paths=40)(_step(1, _pq))
 
 
 @contract("C25", "Revolute/init-and-reset", samples=1)
@@ -214,6 +215,7 @@ def _rate(axis):
 
 contract("C25", "Revolute/l_dot-on-manifold[axis=2]", samples=0, replayable=False, timeout=180)(_rate(2))
 contract("C25", "Revolute/l_dot-on-manifold[axis=0]", tiers=("thorough",), samples=0, replayable=False, timeout=180)(_rate(0))
+contract("C25", "Revolute/l_dot-on-manifold[axis=1]", tiers=("thorough",), samples=0, replayable=False, timeout=180)(_rate(1))
 
 
 @bounded("C25", "random-histories")
